@@ -13,14 +13,14 @@ PART = {
   "C05": dict(
     imports=["Carquet.Properties.C05.Writer"],
     obligations=["Carquet.Properties.C05.C05_envelope", "Carquet.Properties.C05.C05_envelope_real", "Carquet.Properties.C05.C05_chunks_tile", "Carquet.Properties.C05.C05_pages_chain", "Carquet.Properties.C05.C05_written_table"],
-    components=["file", "c05sink"],
+    components=["twice", "file", "c05sink"],
     fidelity={"Impl.Writer": "exact (control), byte-exact whole files through Impl.FileReal for codecs 0/1/5/7",
               "GZIP/ZSTD pages": "not modelled byte-for-byte (zlib/libzstd); statuses only"},
     rule="file: random flat schemas (1..4 columns over the 7 writable types, REQUIRED/OPTIONAL), contents with extreme "
          "ints, NaN/-0.0 patterns, empty and long strings, all-null / no-null / run-structured null patterns, zero rows; "
          "6 codec tags; page_size 1 B .. 1 MiB; 0..3 row groups; every column's rows split into 1..4 write_batch calls "
          "(also empty ones, NULL def_levels); each file written twice, read back through fread, mmap and buffer. "
-         "distinct = distinct histories. c05sink: 6 (thorough 40) histories on fopencookie sinks with one transiently failing or "
+         "distinct = distinct histories. twice: in a fresh process, per codec one INT64 column of 16 000 .. 60 000 values (ramp / low-entropy / random; pages above 64 KiB) written twice in a row, first with every codec in its virgin state, then after a different table; the two files must be byte-identical. c05sink: 6 (thorough 40) histories on fopencookie sinks with one transiently failing or "
          "permanently failing operation in 3 buffering modes, the caller carrying on: OK from close => the sink holds exactly the fault-free file",
     assumptions=["fwrite/fread are identity on bytes", "GZIP (level 6) and ZSTD (level 3) payloads by library contract"],
     trusted_base=[],
